@@ -91,11 +91,22 @@ class Path:
         self.exc: Optional[Tuple[str, str, int]] = None  # (type text, cause, line)
         self.src: Dict[str, tuple] = {}   # local name -> (source text, expression, versions of the names it reads)
         self.ver: Dict[str, int] = {}     # local name -> number of assignments so far
+        self.heap: Dict[str, Term] = {}   # "<object key>.<attr>" -> value, for attributes of plain objects built on this path
+        self.locks: Tuple[str, ...] = ()  # keys of the locks taken by .acquire() and not yet released
+
+    def derive(self, env, events, conds) -> "Path":
+        """A path of another activation (callee, handler, caller continuation) on the same execution."""
+        p = Path(env, events, conds)
+        p.heap = dict(self.heap)
+        p.locks = self.locks
+        return p
 
     def fork(self) -> "Path":
         p = Path(self.env, self.events, self.conds)
         p.src = dict(self.src)
         p.ver = dict(self.ver)
+        p.heap = dict(self.heap)
+        p.locks = self.locks
         p.status = self.status
         p.ret = self.ret
         p.exc = self.exc
@@ -218,7 +229,7 @@ class Frame:
         e.env = dict(p.env) if self.guards else None
         e.ncond = len(p.conds)
         e.whole = self.ctx.whole > 0
-        e.held = tuple(self.held)
+        e.held = tuple(self.held) + p.locks
         p.events.append(e)
         return e
 
@@ -240,8 +251,10 @@ class Frame:
     def run_function(self, fn: ast.FunctionDef, bound: Dict[str, Term], p: Path) -> List[Path]:
         """Execute ``fn`` with parameters bound; returns caller-visible paths
         (status ret|raise|live->ret None)."""
-        callee = Path(bound, p.events, p.conds)
+        callee = p.derive(bound, p.events, p.conds)
         is_gen = any(isinstance(x, (ast.Yield, ast.YieldFrom)) for x in _walk_own(fn))
+        straight = is_gen and not any(isinstance(y, (ast.Yield, ast.YieldFrom)) for x in _walk_own(fn)
+                                      if isinstance(x, (ast.For, ast.AsyncFor, ast.While)) for y in ast.walk(x))
         paths = self.block(fn.body, [callee])
         out = []
         for q in paths:
@@ -261,7 +274,9 @@ class Frame:
                 for it in flat:
                     if it not in uniq:
                         uniq.append(it)
-                if uniq:
+                if items and straight:
+                    q.ret = Seq(items)          # yields outside any loop: exactly these items, in this order
+                elif uniq:
                     q.ret = Coll(uniq[0] if len(uniq) == 1 else Sym("oneof", tuple(uniq)))
                     q.ret.nonempty = True       # something was yielded on this path
                 else:
@@ -319,28 +334,62 @@ class Frame:
         if isinstance(st, (ast.For, ast.AsyncFor)):
             return self.do_for(st, p)
         if isinstance(st, ast.While):
+            # a test that the path decides (``while True`` / ``while pending`` on a list whose contents are known /
+            # a fact established earlier) is followed for as many iterations as it stays decided; an undecided
+            # test gives the two abstract outcomes "not entered" and "body ran once"
             out = []
-            for q, _ in self.expr(st.test, p):
-                if q.status != "live":
-                    out.append(q)
-                    continue
-                skip = q.fork()
-                body = self.block(st.body, [q.fork()])
-                for b in body:
-                    if b.status in ("break", "continue"):
-                        b.status = "live"
-                out.extend([skip] + body)
+            cur = [p]
+            for _round in range(12):
+                nxt = []
+                for q in cur:
+                    outcomes = self.branch(st.test, q)
+                    decided = len([1 for _, v in outcomes if v is not None]) == 1
+                    for q2, v in outcomes:
+                        if v is None or q2.status != "live":
+                            out.append(q2)
+                        elif v is False:
+                            out.extend(self.block(st.orelse, [q2]) if st.orelse else [q2])
+                        else:
+                            for b in self.block(st.body, [q2]):
+                                if b.status == "break":
+                                    b.status = "live"
+                                    out.append(b)
+                                elif b.status in ("live", "continue"):
+                                    b.status = "live"
+                                    (nxt if decided else out).append(b)
+                                else:
+                                    out.append(b)
+                cur = nxt
+                if not cur:
+                    break
+            if cur:
+                self.ctx.note(f"while loop in {self.fname} not exhausted after 12 decided iterations")
+                out.extend(cur)
             return out
         if isinstance(st, ast.Try):
             return self.do_try(st, p)
         if isinstance(st, (ast.With, ast.AsyncWith)):
             cur = [p]
             keys = []
+            managers = []
             for item in st.items:
                 nxt = []
                 k_ = None
                 for q in cur:
                     for q2, t in self.expr(item.context_expr, q):
+                        pc = self.plain_class(t) if q2.status == "live" else None
+                        ent = pc.find_method("__enter__") if pc is not None else None
+                        ext = pc.find_method("__exit__") if pc is not None else None
+                        if ent is not None and ext is not None:
+                            # a context manager class of the repository: run its __enter__ here and its __exit__ on every way out
+                            managers.append((t, ext))
+                            first = [a.arg for a in ent[1].args.posonlyargs + ent[1].args.args][:1]
+                            for q3, t3 in self.inline(ent[0].module, None, ent[1], None, None, {first[0]: t} if first else {}, q2, st):
+                                if item.optional_vars is not None and q3.status == "live":
+                                    self.assign(item.optional_vars, t3, q3, st)
+                                nxt.append(q3)
+                            k_ = k_ or "enter:" + t.key()
+                            continue
                         if item.optional_vars is not None and q2.status == "live":
                             self.assign(item.optional_vars, t, q2, st)
                         if k_ is None and t is not None:
@@ -350,9 +399,24 @@ class Frame:
                 keys.append(k_ or "expr:" + ast.unparse(item.context_expr)[:60])
             self.held.extend(keys)
             try:
-                return self.block(st.body, cur)
+                outs = self.block(st.body, cur)
             finally:
                 del self.held[len(self.held) - len(keys):]
+            for t, (xo, xfn) in reversed(managers):
+                nxt = []
+                for q in outs:
+                    saved = (q.status, q.ret, q.exc)
+                    q.status = "live"
+                    names = [a.arg for a in xfn.args.posonlyargs + xfn.args.args]
+                    bound = {n_: Const(None) for n_ in names[1:]}
+                    if names:
+                        bound[names[0]] = t
+                    for q2, _ in self.inline(xo.module, None, xfn, None, None, bound, q, st):
+                        if q2.status == "live":
+                            q2.status, q2.ret, q2.exc = saved
+                        nxt.append(q2)
+                outs = nxt
+            return outs
         if isinstance(st, ast.Break):
             p.status = "break"
             return [p]
@@ -442,6 +506,8 @@ class Frame:
             if isinstance(base, ast.Name) and base.id in ("self", "cls") and p.env.get(base.id) is self.selfterm:
                 p.env[f"self.{tg.attr}"] = t
             bt = p.env.get(base.id) if isinstance(base, ast.Name) else None
+            if isinstance(bt, Sym) and bt.head.startswith("new:"):
+                p.heap[f"{bt.key()}.{tg.attr}"] = t      # attribute of a plain object built on this path
             self.ev(p, "store", text=ast.unparse(tg), target=t, line=st.lineno, op=self.fname,
                     args=(bt if bt is not None else Opaque("obj:" + ast.unparse(base)[:40]), Const(tg.attr)))
         elif isinstance(tg, ast.Subscript):
@@ -571,8 +637,29 @@ class Frame:
             if res is None:
                 return None
             return res if isinstance(test.ops[0], ast.Is) else (not res)
+        if isinstance(test, ast.Compare) and len(test.ops) == 1 and isinstance(test.ops[0], (ast.Eq, ast.NotEq)):
+            a = self.peek(test.left, p)
+            b = self.peek(test.comparators[0], p)
+            if isinstance(a, Const) and isinstance(b, Const) and not isinstance(a.v, _Sentinel) and not isinstance(b.v, _Sentinel) \
+                    and isinstance(a.v, (str, int, bool, type(None))) and isinstance(b.v, (str, int, bool, type(None))):
+                res = a.v == b.v
+                return res if isinstance(test.ops[0], ast.Eq) else (not res)
+            return None
+        if isinstance(test, ast.Compare) and len(test.ops) == 1 and isinstance(test.ops[0], (ast.In, ast.NotIn)):
+            a = self.peek(test.left, p)
+            b = self.peek(test.comparators[0], p)
+            if isinstance(a, Const) and isinstance(a.v, str) and isinstance(b, Seq) and b.items and all(isinstance(i, Const) and isinstance(i.v, str) for i in b.items):
+                res = a.v in [i.v for i in b.items]
+                return res if isinstance(test.ops[0], ast.In) else (not res)
+            return None
+        if isinstance(test, ast.Constant):
+            return bool(test.value)
         if isinstance(test, (ast.Name, ast.Attribute)):
             t = self.peek(test, p)
+            if isinstance(t, Seq) and not any(isinstance(x, Sym) and x.head == "star" for x in t.items):
+                return bool(t.items)
+            if isinstance(t, Sym) and t.head in ("list[]", "dict{}") and not t.args:
+                return False
             if isinstance(t, Const):
                 return bool(t.v) if not isinstance(t.v, _Sentinel) else True
             if isinstance(t, New):
@@ -877,8 +964,9 @@ class Frame:
                 caught = False
                 for hi, h in enumerate(st.handlers):
                     if self.handler_catches(h, b.exc[0] if b.exc else "?"):
-                        hp = Path(b.env, b.events, b.conds)
+                        hp = b.derive(b.env, b.events, b.conds)
                         hp.env["<exc>"] = Sym(b.exc[0] if b.exc else "?")
+                        hp.explicit_exc = True
                         handler_inputs.append((hi, hp))
                         caught = True
                         break
@@ -908,7 +996,7 @@ class Frame:
                         continue
                     fe = e.copy()
                     fe.failed = True
-                    hp = Path(e.env if e.env is not None and e.depth == self.depth else p.env,
+                    hp = b.derive(e.env if e.env is not None and e.depth == self.depth else p.env,
                               b.events[:k] + [fe], p.conds)
                     hp.env["<exc>"] = Sym("exc-of", (e.target,) if isinstance(e.target, Term) else ())
                     handler_inputs.append((hi, hp))
@@ -917,7 +1005,15 @@ class Frame:
             if h.name:
                 hp.env[h.name] = hp.env.get("<exc>", Opaque("exc"))
             hp.conds.append((f"except {htypes[hi]}", True, ""))
-            out.extend(self.block(h.body, [hp]))
+            implicit = not getattr(hp, "explicit_exc", False) and _only_reraises(h) and not getattr(self.ctx, "keep_reraise", False)
+            for q in self.block(h.body, [hp]):
+                if h.name and q.status == "live":
+                    q.env[h.name] = Sym("unbound", text=h.name)     # ``except … as name`` deletes the name when the clause ends
+                if implicit and q.status == "raise" and q.exc and q.exc[1] == "reraise" and q.events and q.events[-1].text == "<reraise>":
+                    # clean up and let the same exception go on: the outcome of having no handler at all, and
+                    # failures of calls outside any handler are not paths of this model either
+                    continue
+                out.append(q)
         if st.orelse:
             nxt = []
             for q in out:
@@ -997,7 +1093,14 @@ class Frame:
 
     def e_Name(self, e, p):
         if e.id in p.env:
-            return [(p, p.env[e.id])]
+            t0 = p.env[e.id]
+            if isinstance(t0, Sym) and t0.head == "unbound" and isinstance(e.ctx, ast.Load):
+                # the local was deleted on this path (the ``as`` name of an except clause that has ended)
+                p.status = "raise"
+                p.exc = ("UnboundLocalError", "none", e.lineno)
+                self.ev(p, "raise", text=f"UnboundLocalError({e.id})", line=e.lineno, target=Sym("new:UnboundLocalError", (Const(e.id),)), args=(Sym("none"),))
+                return [(p, Opaque("raised"))]
+            return [(p, t0)]
         if e.id == "MISSING":
             return [(p, Const(MISSING))]
         if e.id in ("None", "True", "False"):
@@ -1026,6 +1129,11 @@ class Frame:
         if key in cache:
             return cache[key]
         cache[key] = Sym("global", text=key)
+        if isinstance(init, ast.Subscript) and isinstance(init.value, (ast.Name, ast.Attribute)):
+            # ``_Pairs = Iter[Union[K, V]]``: a parametrised alias of a class is that class
+            r = self.repo.resolve_expr(module, init.value)
+            if r and r[0] == "class":
+                cache[key] = Sym("class", text=r[1].qualname)
         if isinstance(init, ast.Call) and self.depth < self.ctx.max_depth:
             f0 = init.func.value if isinstance(init.func, ast.Subscript) else init.func
             r = self.repo.resolve_expr(module, f0) if isinstance(f0, (ast.Name, ast.Attribute)) else None
@@ -1036,6 +1144,14 @@ class Frame:
                 if len(terms) == 1 and isinstance(terms[0], New):
                     terms[0].global_name = key
                     cache[key] = terms[0]
+        elif isinstance(init, (ast.Dict, ast.Tuple)) and (init.keys if isinstance(init, ast.Dict) else init.elts) \
+                and self.depth < self.ctx.max_depth and _never_mutated(self.repo, module, name):
+            # a table written once at import (``_HANDLERS = {Request: handler, …}``): its display is its value
+            if all(isinstance(x, (ast.Name, ast.Attribute, ast.Constant, ast.Tuple)) for x in ast.iter_child_nodes(init) if isinstance(x, ast.expr)):
+                fr = Frame(self.ctx, module, None, None, None, self.depth + 1, self.via, f"<module {module.name}>")
+                res = [(q, t) for q, t in fr.expr(init, Path()) if q.status == "live"]
+                if len(res) == 1 and not res[0][0].events:
+                    cache[key] = res[0][1]
         return cache[key]
 
     def e_Attribute(self, e, p):
@@ -1124,7 +1240,48 @@ class Frame:
             return [(p, Sym("classattr", text=f"{t.text}.{attr}"))]
         if isinstance(t, Sym) and t.head == "ext":
             return [(p, Sym("ext", text=f"{t.text}.{attr}"))]
+        if isinstance(t, Sym) and t.head.startswith("new:"):
+            hk = f"{t.key()}.{attr}"
+            if hk in p.heap:
+                return [(p, p.heap[hk])]
+            ci = self.plain_class(t)
+            if ci is not None:
+                r = ci.find_method(attr)
+                if r is not None and any(ast.unparse(d) == "property" for d in r[1].decorator_list):
+                    first = [a.arg for a in r[1].args.posonlyargs + r[1].args.args][:1]
+                    return self.inline(r[0].module, None, r[1], None, None, {first[0]: t} if first else {}, p, node)
+                if r is None:
+                    v = self.init_field(ci, t, attr)
+                    if v is not None:
+                        return [(p, v)]
         return [(p, Sym("attr", (t,), text=attr) if False else Sym(f"attr:{attr}", (t,)))]
+
+    def plain_class(self, t: Term) -> Optional[ClassInfo]:
+        """The repository class of a ``new:<Name>(…)`` term (a plain, non-node object built by the analysed code)."""
+        if isinstance(t, Sym) and t.head.startswith("new:"):
+            # private helper classes are implementation detail to look through; calls on the public ones
+            # (Request.run, Runtime.handle, Cache.get …) are the events the rules talk about
+            hits = [c for c in self.repo.classes.values() if c.name == t.head[4:] and c.name.startswith("_")]
+            if len(hits) == 1 and not (hits[0].is_subclass_of("Evaluatable") or hits[0].is_subclass_of("Effect")):
+                return hits[0]
+        return None
+
+    def init_field(self, ci: ClassInfo, t: Sym, attr: str) -> Optional[Term]:
+        """``self.attr = <parameter>`` at the top level of ``__init__``: the constructor argument."""
+        r = ci.find_method("__init__")
+        if r is None:
+            return None
+        fn = r[1]
+        names = [x.arg for x in fn.args.posonlyargs + fn.args.args][1:] + [x.arg for x in fn.args.kwonlyargs]
+        selfname = ([x.arg for x in fn.args.posonlyargs + fn.args.args] or ["self"])[0]
+        for st in fn.body:
+            tg = st.targets[0] if isinstance(st, ast.Assign) and len(st.targets) == 1 else (st.target if isinstance(st, ast.AnnAssign) else None)
+            if isinstance(tg, ast.Attribute) and tg.attr == attr and isinstance(tg.value, ast.Name) and tg.value.id == selfname \
+                    and isinstance(st.value, ast.Name) and st.value.id in names:
+                i = names.index(st.value.id)
+                if i < len(t.args) and not (isinstance(t.args[i], Sym) and t.args[i].head.startswith("kw:")):
+                    return t.args[i]
+        return None
 
     def e_Subscript(self, e, p):
         out = []
@@ -1168,6 +1325,8 @@ class Frame:
                 out.append((q, t.items[idx.v]))
             elif isinstance(t, Sym) and t.head == "class":
                 out.append((q, t))  # Option[Options] -> Option
+            elif isinstance(t, Sym) and t.head == "dict" and isinstance(idx, Const) and isinstance(idx.v, str) and known_dict(t) is not None and idx.v in known_dict(t):
+                out.append((q, known_dict(t)[idx.v]))      # an entry of a dictionary built up locally
             else:
                 if isinstance(e.ctx, ast.Load) and isinstance(t, Sym) and not isinstance(e.slice, ast.Slice):
                     self.ev(q, "call", text="getitem", target=t, args=(idx,), line=e.lineno)
@@ -1494,7 +1653,11 @@ class Frame:
             kw: Dict[str, Term] = {}
             for k, t in zip(e.keywords, ts[len(e.args):]):
                 if k.arg is None:
-                    kw["**"] = t
+                    known = known_dict(t)
+                    if known is not None and "**" not in kw:
+                        kw.update(known)        # **d of a dictionary whose entries are known: the keyword arguments themselves
+                    else:
+                        kw["**"] = t
                 else:
                     kw[k.arg] = t
             out.append((q, pos, kw))
@@ -1520,6 +1683,32 @@ class Frame:
                         q.env[f.value.id] = Seq(items)
                     out.append((q, Const(None)))
                 return out
+        if isinstance(f, ast.Attribute) and f.attr in ("pop", "popleft") and isinstance(f.value, ast.Name) and not e.keywords \
+                and (not e.args or (len(e.args) == 1 and isinstance(e.args[0], ast.Constant) and e.args[0].value in (0, -1))):
+            cur = p.env.get(f.value.id)
+            if isinstance(cur, Seq) and cur.items and not any(isinstance(x, Sym) and x.head == "star" for x in cur.items):
+                first = f.attr == "popleft" or (e.args and e.args[0].value == 0)
+                items = list(cur.items)
+                t = items.pop(0 if first else -1)
+                p.env[f.value.id] = Seq(items)
+                return [(p, t)]
+        if isinstance(f, ast.Attribute) and f.attr == "update" and isinstance(f.value, ast.Name) and len(e.args) == 1 and not e.keywords:
+            cur = p.env.get(f.value.id)
+            if isinstance(cur, Sym) and cur.head in ("dict", "dict{}"):
+                # d.update(x) on a dictionary built up locally: it now also holds x's entries
+                for q, t in self.expr(e.args[0], p):
+                    if q.status == "live":
+                        base = q.env.get(f.value.id)
+                        items = tuple(base.args) if isinstance(base, Sym) and base.head == "dict" else ()
+                        more = tuple(t.args) if isinstance(t, Sym) and t.head == "dict" else (Sym("dstar", (t,)),)
+                        q.env[f.value.id] = Sym("dict", items + more)
+                    out.append((q, Const(None)))
+                return out
+        if isinstance(f, ast.Name) and f.id == "next" and f.id not in p.env and 1 <= len(e.args) <= 2 and not e.keywords \
+                and isinstance(e.args[0], ast.GeneratorExp) and len(e.args[0].generators) == 1:
+            r_ = self.first_match(e, p)
+            if r_ is not None:
+                return r_
         for q, callee in self.expr(f, p):
             if q.status != "live":
                 out.append((q, Opaque("dead")))
@@ -1529,6 +1718,49 @@ class Frame:
                     out.append((q2, Opaque("dead")))
                     continue
                 out.extend(self.call_term(callee, pos, kw, q2, e))
+        return out
+
+    def first_match(self, e: ast.Call, p: Path):
+        """``next((elt for x in <known sequence> if cond), default)``: the first item that passes, lazily —
+        item k+1 is only tested on the paths where items 1..k failed; the default (or StopIteration) when none does."""
+        ge = e.args[0]
+        g = ge.generators[0]
+        it = self.peek(g.iter, p)
+        if it is None and isinstance(g.iter, (ast.Name, ast.Attribute)):
+            r0 = self.expr(g.iter, p.fork())
+            it = r0[0][1] if len(r0) == 1 and r0[0][0].status == "live" and len(r0[0][0].events) == len(p.events) else None
+        if not (isinstance(it, Seq) and 0 < len(it.items) <= 6 and not any(isinstance(x, Sym) and x.head == "star" for x in it.items)):
+            return None
+        saved = dict(p.env)
+        out = []
+        cur = [p]
+        for item in it.items:
+            nxt = []
+            for q in cur:
+                self.assign(g.target, item, q, e)
+                conds = [(q, True)]
+                for c in g.ifs:
+                    conds = [(q3, v3) for q2, v2 in conds for q3, v3 in (self.branch(c, q2) if v2 is True else [(q2, v2)])]
+                for q2, v2 in conds:
+                    if v2 is None:
+                        out.append((q2, Opaque("dead")))
+                    elif v2:
+                        out.extend(self.expr(ge.elt, q2))
+                    else:
+                        nxt.append(q2)
+            cur = nxt
+        for q in cur:
+            if len(e.args) == 2:
+                out.extend(self.expr(e.args[1], q))
+            else:
+                q.status = "raise"
+                q.exc = ("StopIteration", "none", e.lineno)
+                self.ev(q, "raise", text="StopIteration", line=e.lineno, target=Sym("new:StopIteration"), args=(Sym("none"),))
+                out.append((q, Opaque("raised")))
+        for q, _ in out:
+            for k in list(q.env):
+                if k not in saved and not k.startswith("self."):
+                    del q.env[k]
         return out
 
     def call_term(self, callee: Term, pos: List[Term], kw: Dict[str, Term], p: Path, node: ast.Call):
@@ -1580,6 +1812,16 @@ class Frame:
                 ci = self.repo.classes.get(callee.text)
                 if ci is not None:
                     return self.construct(ci, pos, kw, p, node)
+            if callee.head == "methodcaller" and len(pos) == 1 and not kw and callee.args:
+                # operator.methodcaller(name, *a, **k)(x) is x.name(*a, **k)
+                margs = [a for a in callee.args[1:] if not (isinstance(a, Sym) and a.head.startswith("kw:"))]
+                mkw = {a.head[3:]: a.args[0] for a in callee.args[1:] if isinstance(a, Sym) and a.head.startswith("kw:")}
+                out = []
+                for q, bt in self.call_external(Sym("name", text="getattr"), [pos[0], callee.args[0]], {}, p, node):
+                    out.extend(self.call_term(bt, margs, mkw, q, node) if q.status == "live" else [(q, Opaque("dead"))])
+                return out
+            if callee.head == "attrgetter" and len(pos) == 1 and not kw and len(callee.args) == 1:
+                return self.call_external(Sym("name", text="getattr"), [pos[0], callee.args[0]], {}, p, node)
             return self.call_external(callee, pos, kw, p, node)
         self.ev(p, "call", text=callee.key()[:60], target=callee, args=tuple(pos), line=line)
         return [(p, Sym("call", (callee, *pos)))]
@@ -1619,8 +1861,24 @@ class Frame:
                     if first and not static:
                         bound[first[0]] = recv
                     return self.inline(owner.module, None, fn, None, None, bound, p, node)
+            pc = self.plain_class(recv)
+            if pc is not None and mname not in self.ctx.no_inline:
+                r = pc.find_method(mname)
+                if r is not None and not any(ast.unparse(d) in ("property", "classmethod", "staticmethod") for d in r[1].decorator_list) \
+                        and not any(isinstance(x, Sym) and x.head == "star" for x in pos) and "**" not in kw:
+                    owner, fn = r
+                    bound = self.bind_params(fn, True, pos, kw, owner.module)
+                    first = [a.arg for a in fn.args.posonlyargs + fn.args.args][:1]
+                    if first:
+                        bound[first[0]] = recv
+                    return self.inline(owner.module, None, fn, None, None, bound, p, node)
             kws = tuple(Sym("kw:" + k, (v,)) for k, v in sorted(kw.items()))
             self.ev(p, "call", text=mname, target=recv, args=tuple(pos) + kws, line=line)
+            if mname == "acquire" and not kw:
+                p.locks = p.locks + (recv.key(),)
+            elif mname == "release" and not pos and not kw and recv.key() in p.locks:
+                i_ = len(p.locks) - 1 - p.locks[::-1].index(recv.key())
+                p.locks = p.locks[:i_] + p.locks[i_ + 1:]
             return [(p, Sym("call:" + mname, (recv,) + tuple(pos) + kws))]
         if short == "getattr" and len(pos) >= 2:
             tgt, nm = pos[0], pos[1]
@@ -1655,6 +1913,14 @@ class Frame:
             else:
                 self.ev(p, "store", text=f"setattr({src}, …)", target=val, line=line, op=self.fname, args=(obj, nm))
             return [(p, Const(None))]
+        r_ = self.higher_order(name, short, pos, kw, p, node)
+        if r_ is not None:
+            return r_
+        if name == "dict" and kw and "**" not in kw and len(pos) <= 1:
+            base = ()
+            if pos:
+                base = pos[0].args if isinstance(pos[0], Sym) and pos[0].head == "dict" else (Sym("dstar", (pos[0],)),)
+            return [(p, Sym("dict", tuple(base) + tuple(Sym("item", (Const(k), v)) for k, v in kw.items())))]
         if short in ("tuple", "list", "set", "frozenset", "iter") and len(pos) == 1 and not kw:
             t = pos[0]
             if isinstance(t, (Coll, Child, Seq)):
@@ -1676,6 +1942,114 @@ class Frame:
             return [(p, Sym("callres", (callee,) + tuple(pos) + kws))]
         self.ev(p, "call", text=name, args=tuple(pos) + tuple(Sym("kw:" + k, (v,)) for k, v in kw.items()), line=line)
         return [(p, Sym("call:" + name, tuple(pos) + tuple(Sym("kw:" + k, (v,)) for k, v in sorted(kw.items()))))]
+
+    _OPERATOR_BIN = {"or_": "BitOr", "and_": "BitAnd", "xor": "BitXor", "add": "Add", "sub": "Sub", "mul": "Mult",
+                     "truediv": "Div", "floordiv": "FloorDiv", "mod": "Mod", "pow": "Pow", "matmul": "MatMult",
+                     "rshift": "RShift", "lshift": "LShift", "concat": "Add",
+                     "__or__": "BitOr", "__and__": "BitAnd", "__add__": "Add", "__rshift__": "RShift"}
+    _OPERATOR_CMP = {"eq": "Eq", "ne": "NotEq", "lt": "Lt", "le": "LtE", "gt": "Gt", "ge": "GtE", "is_": "Is", "is_not": "IsNot"}
+
+    def synth_expr(self, src: str, binds: Dict[str, Term], p: Path, node) -> List[Tuple[Path, Term]]:
+        """Evaluate the expression ``src`` (whose free names are the keys of ``binds``) in place of the call
+        ``node``: the library call it stands for is, by definition, that expression."""
+        n_ = self.ctx.__dict__.setdefault("synth_n", 0)
+        self.ctx.synth_n = n_ + 1
+        ren = {k: f"{k}${n_}" for k in binds}
+        tree = ast.parse(src, mode="eval").body
+        for x in ast.walk(tree):
+            if isinstance(x, ast.Name) and x.id in ren:
+                x.id = ren[x.id]
+            if isinstance(x, ast.arg) and x.arg in ren:
+                x.arg = ren[x.arg]
+            for a_ in ("lineno", "end_lineno"):
+                setattr(x, a_, getattr(node, "lineno", 0))
+            for a_ in ("col_offset", "end_col_offset"):
+                setattr(x, a_, getattr(node, "col_offset", 0))
+        for k, v in binds.items():
+            p.env[ren[k]] = v
+        res = self.expr(tree, p)
+        for q, _ in res:
+            for k in ren.values():
+                q.env.pop(k, None)
+        return res
+
+    def synth_block(self, src: str, binds: Dict[str, Term], result: str, p: Path, node) -> List[Tuple[Path, Term]]:
+        """Run the statements ``src`` in place of the call ``node``; the call's value is the local ``result``."""
+        n_ = self.ctx.__dict__.setdefault("synth_n", 0)
+        self.ctx.synth_n = n_ + 1
+        names = set(binds) | {result}
+        tree = ast.parse(src)
+        for x in ast.walk(tree):
+            if isinstance(x, ast.Name) and (x.id in names or x.id.startswith("_s_")):
+                x.id = f"{x.id}${n_}"
+            for a_ in ("lineno", "end_lineno"):
+                setattr(x, a_, getattr(node, "lineno", 0))
+            for a_ in ("col_offset", "end_col_offset"):
+                setattr(x, a_, getattr(node, "col_offset", 0))
+        for k, v in binds.items():
+            p.env[f"{k}${n_}"] = v
+        out = []
+        for q in self.block(tree.body, [p]):
+            t = q.env.get(f"{result}${n_}", Opaque("dead"))
+            for k in [k for k in q.env if k.endswith(f"${n_}")]:
+                q.env.pop(k, None)
+            out.append((q, t))
+        return out
+
+    def higher_order(self, name: str, short: str, pos, kw, p: Path, node):
+        """Library functions that only apply their function argument: ``map``, ``filter``, ``functools.reduce``,
+        ``itertools.chain``, the ``operator`` module.  Each is replaced by the plain expression it is defined as."""
+        mod = name.rsplit(".", 1)[0] if "." in name else ""
+        if mod in ("operator", "_operator") or (not mod and short in ("methodcaller", "attrgetter", "itemgetter")):
+            if short == "methodcaller" and pos:
+                return [(p, Sym("methodcaller", tuple(pos) + tuple(Sym("kw:" + k, (v,)) for k, v in sorted(kw.items()))))]
+            if short == "attrgetter" and len(pos) == 1 and isinstance(pos[0], Const) and "." not in str(pos[0].v):
+                return [(p, Sym("attrgetter", (pos[0],)))]
+            if short in self._OPERATOR_BIN and len(pos) == 2 and not kw:
+                return [(p, Sym("binop:" + self._OPERATOR_BIN[short], (pos[0], pos[1])))]
+            if short in self._OPERATOR_CMP and len(pos) == 2 and not kw:
+                return [(p, Sym("cmp:" + self._OPERATOR_CMP[short], (pos[0], pos[1])))]
+            if short == "contains" and len(pos) == 2 and not kw:
+                return [(p, Sym("cmp:In", (pos[1], pos[0])))]
+            if short == "not_" and len(pos) == 1:
+                return [(p, Sym("unop:Not", (pos[0],)))]
+            if short == "getitem" and len(pos) == 2 and not kw:
+                return self.synth_expr("a[b]", {"a": pos[0], "b": pos[1]}, p, node)
+            if short == "call" and pos:
+                return self.call_term(pos[0], list(pos[1:]), kw, p, node)
+            return None
+        if kw:
+            return None
+        if short in ("map", "starmap", "filter", "reduce") and pos and not (isinstance(pos[0], (Fn, Bound, Const)) or (isinstance(pos[0], Sym) and pos[0].head in ("methodcaller", "attrgetter", "ext", "name", "class"))):
+            return None         # the function applied is itself unknown: nothing to unfold
+        if short == "map" and mod in ("", "builtins") and len(pos) == 2:
+            return self.synth_expr("(f(x) for x in xs)", {"f": pos[0], "xs": pos[1]}, p, node)
+        if short == "map" and mod in ("", "builtins") and len(pos) == 3:
+            return self.synth_expr("(f(x, y) for x, y in zip(xs, ys))", {"f": pos[0], "xs": pos[1], "ys": pos[2]}, p, node)
+        if short == "starmap" and mod == "itertools" and len(pos) == 2:
+            return self.synth_expr("(f(*x) for x in xs)", {"f": pos[0], "xs": pos[1]}, p, node)
+        if short == "filter" and mod in ("", "builtins") and len(pos) == 2:
+            if isinstance(pos[0], Const) and pos[0].v is None:
+                return self.synth_expr("(x for x in xs if x)", {"xs": pos[1]}, p, node)
+            return self.synth_expr("(x for x in xs if f(x))", {"f": pos[0], "xs": pos[1]}, p, node)
+        if short == "reduce" and mod in ("functools", "_functools") and len(pos) in (2, 3):
+            f, xs = pos[0], pos[1]
+            if isinstance(xs, Seq) and not any(isinstance(x, Sym) and x.head == "star" for x in xs.items) and (xs.items or len(pos) == 3):
+                items = list(xs.items)
+                cur = [(p, pos[2] if len(pos) == 3 else items.pop(0))]
+                for it in items:
+                    nxt = []
+                    for q, acc in cur:
+                        nxt.extend(self.call_term(f, [acc, it], {}, q, node) if q.status == "live" else [(q, acc)])
+                    cur = nxt
+                return cur
+            init = pos[2] if len(pos) == 3 else Sym("first", (xs,))
+            return self.synth_block("acc = init\nfor _s_x in xs:\n    acc = f(acc, _s_x)\n", {"f": f, "xs": xs, "init": init}, "acc", p, node)
+        if mod == "itertools.chain" and short == "from_iterable" and len(pos) == 1:
+            return self.synth_expr("(y for x in xs for y in x)", {"xs": pos[0]}, p, node)
+        if name == "itertools.chain" and pos:
+            return [(p, Seq([Sym("star", (t,)) for t in pos]))]
+        return None
 
     # ---------------------------------------------------------------- ops
     def apply_op(self, op: str, target: Term, pos: List[Term], kw: Dict[str, Term], p: Path, node):
@@ -1814,7 +2188,7 @@ class Frame:
             if set(extra) == {"**"}:
                 bound[a.kwarg.arg] = extra["**"]
             else:
-                bound[a.kwarg.arg] = Sym("dict", tuple(Sym("item:" + repr(k), (v,)) for k, v in extra.items()))
+                bound[a.kwarg.arg] = Sym("dict", tuple(Sym("dstar", (v,)) if k == "**" else Sym("item", (Const(k), v)) for k, v in extra.items()))
         # defaults
         n_def = len(a.defaults)
         pos_params = [x.arg for x in a.posonlyargs + a.args]
@@ -1873,7 +2247,7 @@ class Frame:
         fr.guards = list(self.guards)
         fr.held = list(self.held)
         if isinstance(fn, ast.Lambda):
-            callee = Path(env, p.events, p.conds)
+            callee = p.derive(env, p.events, p.conds)
             res = fr.expr(fn.body, callee)
             paths = []
             for q, t in res:
@@ -1885,7 +2259,7 @@ class Frame:
             paths = fr.run_function(fn, env, p)
         out = []
         for q in dedupe(paths):
-            c = Path(p.env, q.events, q.conds)
+            c = q.derive(p.env, q.events, q.conds)
             if q.status == "raise":
                 c.status = "raise"
                 c.exc = q.exc
@@ -2009,6 +2383,67 @@ class Frame:
         bound = self.bind_params(fn, True, pos, kw, owner.module)
         fr_res = self.inline(owner.module, self.cls, fn, inst, None, bound, p, node)
         return [(q, Sym("instance", ())) for q, _ in fr_res]
+
+
+_MUTATORS = {"update", "pop", "setdefault", "clear", "append", "add", "extend", "remove", "popitem", "insert", "discard", "__setitem__", "__delitem__"}
+
+
+def _never_mutated(repo: Repo, module: Module, name: str) -> bool:
+    """No statement of the repository stores into, deletes from, re-binds or calls a mutating method on the
+    module-level name (looked at through every module that can see it under that name)."""
+    cache = repo.__dict__.setdefault("_never_mutated", {})
+    k = (module.name, name)
+    if k in cache:
+        return cache[k]
+    ok = True
+    for m in repo.modules.values():
+        if m is not module and not (name in m.imports and m.imports[name][0] == module.name):
+            # ``module.NAME[...] = …`` through the module object
+            for n in ast.walk(m.tree):
+                if isinstance(n, ast.Attribute) and n.attr == name and isinstance(n.ctx, (ast.Store, ast.Del)):
+                    ok = False
+            continue
+        binds = 0
+        for n in ast.walk(m.tree):
+            if isinstance(n, ast.Name) and n.id == name and isinstance(n.ctx, (ast.Store, ast.Del)):
+                binds += 1
+            elif isinstance(n, ast.Global) and name in n.names:
+                ok = False
+            elif isinstance(n, ast.Subscript) and isinstance(n.ctx, (ast.Store, ast.Del)) and isinstance(n.value, ast.Name) and n.value.id == name:
+                ok = False
+            elif isinstance(n, ast.Call) and isinstance(n.func, ast.Attribute) and n.func.attr in _MUTATORS and isinstance(n.func.value, ast.Name) and n.func.value.id == name:
+                ok = False
+            elif isinstance(n, ast.AugAssign) and isinstance(n.target, ast.Name) and n.target.id == name:
+                ok = False
+        if m is module and binds != 1:
+            ok = False
+    cache[k] = ok
+    return ok
+
+
+def _only_reraises(h: ast.ExceptHandler) -> bool:
+    """Straight-line clean-up followed by a bare ``raise``: the handler cannot end any other way."""
+    if not h.body or not isinstance(h.body[-1], ast.Raise) or h.body[-1].exc is not None:
+        return False
+    return all(isinstance(st, (ast.Expr, ast.Assign, ast.AugAssign, ast.AnnAssign, ast.Pass, ast.Delete)) for st in h.body[:-1])
+
+
+def known_dict(t: Term) -> Optional[Dict[str, Term]]:
+    """Entries of a dictionary term whose keys are all constant strings (later entries win), else None."""
+    if not (isinstance(t, Sym) and t.head == "dict"):
+        return None
+    out: Dict[str, Term] = {}
+    for it in t.args:
+        if isinstance(it, Sym) and it.head == "item" and len(it.args) == 2 and isinstance(it.args[0], Const) and isinstance(it.args[0].v, str):
+            out.pop(it.args[0].v, None)
+            out[it.args[0].v] = it.args[1]
+        elif isinstance(it, Sym) and it.head == "dstar" and known_dict(it.args[0]) is not None:
+            for k, v in known_dict(it.args[0]).items():
+                out.pop(k, None)
+                out[k] = v
+        else:
+            return None
+    return out
 
 
 def _walk_own(fn):
@@ -2248,7 +2683,48 @@ def analyse_function(ctx: Ctx, module: Module, fn: ast.FunctionDef, env: Optiona
     if a.kwarg:
         e[a.kwarg.arg] = Child("**" + a.kwarg.arg)
     e.update(env or {})
-    ps_ = fr.run_function(fn, e, Path())
+    wrapped = _apply_private_decorators(ctx, module, fn, fr) if cls is None else None
+    if wrapped is not None:
+        # the function as the module binds it: wrapped by the repository's own private decorators
+        fake = ast.Call(func=ast.Name(id=fn.name, ctx=ast.Load()), args=[], keywords=[])
+        fake.lineno, fake.col_offset = fn.lineno, 0
+        ps_ = []
+        pos_names = [x.arg for x in a.posonlyargs + a.args]
+        for q, t in fr.call_term(wrapped, [e[n] for n in pos_names], {x.arg: e[x.arg] for x in a.kwonlyargs}, Path(), fake):
+            if q.status == "live":
+                q.status = "ret"
+                q.ret = t
+            ps_.append(q)
+        ps_ = dedupe(ps_)
+    else:
+        ps_ = fr.run_function(fn, e, Path())
     STATS["paths"] += len(ps_)
     STATS["functions"] += 1
     return ps_
+
+
+def _apply_private_decorators(ctx: Ctx, module: Module, fn, fr: "Frame") -> Optional[Term]:
+    """``@_helper`` / ``@_helper(args)`` where ``_helper`` is a private function of the repository: the name
+    is bound to what the decorator returns, so that is what callers (and the runtime's handler table) run.
+    Public decorators (``@dataset``, ``@pipeline_step``, ``Request.handle`` …) are API with their own rules."""
+    decos = []
+    for d in getattr(fn, "decorator_list", []):
+        f0 = d.func if isinstance(d, ast.Call) else d
+        if isinstance(f0, ast.Name) and f0.id.startswith("_"):
+            r = ctx.repo.resolve_name(module, f0.id)
+            if r and r[0] == "func":
+                decos.append(d)
+    if not decos:
+        return None
+    t: Term = Fn("func", (None, None, None, module), fn)
+    for d in reversed(decos):
+        res = [(q, c) for q, c in fr.expr(d, Path()) if q.status == "live"]
+        if len(res) != 1:
+            return None
+        fake = ast.Call(func=d, args=[], keywords=[])
+        fake.lineno, fake.col_offset = d.lineno, d.col_offset
+        res2 = [(q, c) for q, c in fr.call_term(res[0][1], [t], {}, Path(), fake) if q.status == "live"]
+        if len(res2) != 1 or not isinstance(res2[0][1], Fn):
+            return None
+        t = res2[0][1]
+    return t
